@@ -122,6 +122,23 @@ def run(ctx):
             for box in ("offset", "fixed", "opt_outside", "tight", "half_lo"):
                 for _ in range(6 if ctx.thorough else 2):
                     ps.append(problems.gen_problem(rng, A, alg_name=nm, box=box))
+        # CCSAQ with a user preconditioner: the preconditioned inner subproblem has its own trust-region box (pre_lb / pre_ub),
+        # intersected with the user's bounds; optimum beyond a face, start near that face, either side
+        for rep in range(24 if ctx.thorough else 8):
+            n = rng.choice([1, 2, 3])
+            p = problems.gen_problem(rng, A, alg_name="NLOPT_LD_CCSAQ", n=n, box="finite", with_constraints=(rep % 4 == 3), maxeval=60)
+            for k in ("stopval", "maxtime", "clockq", "clock0", "ftol_rel", "xtol_abs", "xtol_rel", "xw", "inj"):
+                p.pop(k, None)
+            lo = [rng.uniform(-3, 3) for _ in range(n)]
+            w = [10.0 ** rng.uniform(-1, 1) for _ in range(n)]
+            p["lb"], p["ub"] = lo, [a + b for a, b in zip(lo, w)]
+            side = [rng.random() < 0.5 for _ in range(n)]           # True: optimum below lb, start near lb
+            p["x0"] = [(a + b * rng.uniform(0.02, 0.3)) if sd else (a + b * rng.uniform(0.7, 0.98)) for a, b, sd in zip(lo, w, side)]
+            p["obj"] = 0
+            p["oc"] = [(a - b * rng.uniform(0.5, 4.0)) if sd else (a + b + b * rng.uniform(0.5, 4.0)) for a, b, sd in zip(lo, w, side)]
+            p["pre"] = 1
+            p["quietx"] = 0
+            ps.append(p)
         # long runs with the optimum ON a bound (or outside the box): subdivision / trust-region / simplex sizes shrink to rounding level
         # next to the bound, which is where "x + step" rounds past it
         for nm in problems.ALL:
